@@ -1,5 +1,6 @@
 import BreezyVerif.Common
 import BreezyVerif.Model.C34
+import BreezyVerif.Model.C34RT
 /-!
 C34 driver.  Byte strings as hex (`-` empty), `~` = None, lists comma-separated.
 
@@ -12,6 +13,10 @@ C34 driver.  Byte strings as hex (`-` empty), `~` = None, lists comma-separated.
   `ok <commit fields> <revid> <codec> <committer> <message> <props>` where props is the rendered property dict and commit fields is the
   exported commit in the request's field order.  FX = code variant (see `importDecode`).
 * `fix text` → `fix_person_identifier` (`E:Value` on ValueError)
+* roundtrip.py: a supplement is four fields `rid pids props testament` (`~` = None, lists comma-separated with `-` = empty
+  list, an empty byte string inside a list is `.`, props are `k:v`, printed sorted by key):
+  `rtgen S` → bytes; `rtparse text` → `S` | `E:Value`; `rtinj msg (S | ~ ~ ~ ~ with first field `none`)` → bytes;
+  `rtext msg` → `msg ~` | `msg S` | `E:Value`
 -/
 namespace BreezyVerif.C34
 
@@ -103,7 +108,66 @@ def showCommit (c : Commit) : String :=
      joinList (c.extra.map fun (k, v) => toHex k ++ ":" ++ toHex v), showOpt c.gpgsig,
      showOpt c.message]
 
+def elHex (b : Bytes) : String := if b.isEmpty then "." else toHex b
+def elFromHex (s : String) : Option Bytes := if s == "." then some [] else fromHex s
+
+def optEl (s : String) : Option (Option Bytes) := if s == "~" then some none else (elFromHex s).map some
+def optList (s : String) : Option (Option (List Bytes)) :=
+  if s == "~" then some none else ((splitList s).mapM elFromHex).map some
+def propPair (s : String) : Option (Bytes × Bytes) :=
+  match s.splitOn ":" with
+  | [k, v] => do pure ((← elFromHex k), (← elFromHex v))
+  | _ => none
+
+def parseSupp (a b c e : String) : Option Supp :=
+  match optEl a, optList b, (splitList c).mapM propPair, optEl e with
+  | some a, some b, some c, some e => some ⟨a, b, c, e⟩
+  | _, _, _, _ => none
+
+/-- lexicographic order on byte strings (Python's `sorted` on bytes keys) -/
+def bytesLe : Bytes → Bytes → Bool
+  | [], _ => true
+  | _ :: _, [] => false
+  | x :: xs, y :: ys => if x < y then true else if y < x then false else bytesLe xs ys
+
+def insertProp (kv : Bytes × Bytes) : List (Bytes × Bytes) → List (Bytes × Bytes)
+  | [] => [kv]
+  | h :: t => if bytesLe kv.1 h.1 then kv :: h :: t else h :: insertProp kv t
+
+def sortProps (l : List (Bytes × Bytes)) : List (Bytes × Bytes) := l.foldr insertProp []
+
+def showSupp (s : Supp) : String :=
+  (match s.revisionId with | none => "~" | some r => elHex r) ++ " " ++
+  (match s.parentIds with | none => "~" | some l => joinList (l.map elHex)) ++ " " ++
+  joinList ((sortProps s.props).map fun kv => elHex kv.1 ++ ":" ++ elHex kv.2) ++ " " ++
+  (match s.testament with | none => "~" | some r => elHex r)
+
 def handle : List String → String
+  | ["rtgen", a, b, c, e] =>
+    match parseSupp a b c e with
+    | some s => toHex (generate s)
+    | none => "bad-op"
+  | ["rtparse", t] =>
+    match fromHex t with
+    | some t => (match parseMeta t with
+      | some s => showSupp s
+      | none => "E:Value")
+    | none => "bad-op"
+  | ["rtinj", m, "none"] =>
+    match fromHex m with
+    | some m => toHex (injectMeta m none)
+    | none => "bad-op"
+  | ["rtinj", m, a, b, c, e] =>
+    match fromHex m, parseSupp a b c e with
+    | some m, some s => toHex (injectMeta m (some s))
+    | _, _ => "bad-op"
+  | ["rtext", m] =>
+    match fromHex m with
+    | some m => (match extractMeta m with
+      | none => "E:Value"
+      | some (msg, none) => toHex msg ++ " ~"
+      | some (msg, some s) => toHex msg ++ " " ++ showSupp s)
+    | none => "bad-op"
   | ["rt", fx, strict, id, lk, dec, enc', tree, parents, author, atime, atz, aneg, committer, ctime, ctz, cneg, enc,
       mergetags, extra, gpgsig, message] =>
     match parseBool strict, fromHex id, fromHex tree, (splitList parents).mapM fromHex, fromHex author,
